@@ -30,14 +30,17 @@ Record jws := mk_jws {
   j_exp : Z             (* the SIGNED expiration claim *)
 }.
 
-Inductive status := SUp | SDown | SErroring.
+(* SMisleading: an erroring replica (any result code but success / invalidCredentials) whose
+   diagnostic TEXT contains the words "Invalid Credentials" *)
+Inductive status := SUp | SDown | SErroring | SMisleading.
 
 (* The diagnostic text a directory attaches to a refusal: nothing, a plain sentence (OpenLDAP
    style), or Active Directory's "AcceptSecurityContext error, data <sub>, ..." with its sub
    status (0x52e bad password, 0x525 no such user, 0x530/0x531 logon restriction, 0x532
    password expired, 0x533 account disabled, 0x701 account expired, 0x773 must reset, 0x775
    locked out ...). *)
-Inductive diag := DNone | DPlain | DAD (sub : N).
+Inductive diag := DNone | DPlain | DAD (sub : N)
+| DMentions.   (* a text that contains the words "Invalid Credentials" (under whatever result code) *)
 
 (* what one bind attempt brings back: bound; an LDAP result (code, diagnostic); or no LDAP
    answer at all (connection / TLS failure, timeout) *)
@@ -92,6 +95,7 @@ Definition bind_at (s : pstate) (sv : status) (p : nat) (u pw : N) : reply :=
   | SUp => if entry_accepts s u pw && Nat.eqb (home s u) p then RBound
            else RRefused invalid_credentials (if Nat.eqb (home s u) p then refusal_diag s u else style s)
   | SErroring => RRefused other_code (style s)
+  | SMisleading => RRefused other_code DMentions
   | SDown => RSilent
   end.
 (* the attempt under the first pattern *)
@@ -100,9 +104,16 @@ Definition bind (s : pstate) (sv : status) (u pw : N) : reply := bind_at s sv 0 
 (* lib/authutil CheckLDAPUserPassword: bound -> (true, nil); an error whose text contains
    "Invalid Credentials", i.e. (go-ldap prints `LDAP Result Code 49 "Invalid Credentials":
    <diagnostic>`) result code 49 WHATEVER the diagnostic -> (false, nil); everything else is an
-   error = "this server did not answer".  [interp code diag] is that middle part. *)
+   error = "this server did not answer".  [interp code diag] is that middle part.  Since the repair
+   the RESULT CODE is tested (ldap.IsErrorWithCode), not the text. *)
 Definition interp_code (c : N) (d : diag) : option bool :=
   if N.eqb c invalid_credentials then Some false else None.
+(* the code before the repair tested the error TEXT for "Invalid Credentials": go-ldap prints
+   `LDAP Result Code <n> "<name of n>": <diagnostic>`, so that is result code 49 - or ANY other
+   result code whose diagnostic mentions the words (refuted in Props/C07.v) *)
+Definition interp_text (c : N) (d : diag) : option bool :=
+  if N.eqb c invalid_credentials then Some false
+  else match d with DMentions => Some false | _ => None end.
 (* a reading of the diagnostic that lets only "bad password" / "no such user" count as a verdict
    (what an Active-Directory-aware refinement might do): refuted in Props/C07.v *)
 Definition interp_ad (c : N) (d : diag) : option bool :=
@@ -292,6 +303,8 @@ Definition pstep_gen (claim_checked : bool) (interp : N -> diag -> option bool) 
 Definition pstep := pstep_gen true interp_code step.
 (* the diagnostic-sensitive reading, otherwise the same machine *)
 Definition pstep_ad := pstep_gen true interp_ad step.
+(* the text test of the code before the repair, otherwise the same machine *)
+Definition pstep_text := pstep_gen true interp_text step.
 
 Definition prun (n : nat) (ops : list pop) : pstate :=
   fold_left (fun s o => fst (pstep s o)) ops (pinit n).
